@@ -143,11 +143,11 @@ pub fn run(ctx: &Ctx) {
     set_rule("C06", "differential against the independent executable specification (kspec): (sender, recipient, ephemeral key, payload key, plaintext, read schedule) and (password, salt, plaintext, read schedule) -> byte equality of the real encryptor's output with the specification's file for the chunking induced by the reads; reverse direction: specification-written conforming files with arbitrary legal chunkings (any chunk 1..65536, incl. full-after-short) must decrypt to plaintext and sender; golden corpus (25 files written by the pinned tree + the repository's 1.x test files); Noise-AEAD nonce layout via the hook for counters across the 64-bit range. Non-trivial = >= 2 chunks or a chunk that is neither full nor last (nonce cases: counter > 255); distinct by hash of the case");
     ctx.assume("kspec is the reference for 'documented format'; it is validated against RFC 8439/7748/5869/4231/7914 vectors, the Noise vector pinned by the repository, and OpenSSL (tools/oracle_audit.py) - a kspec bug would show as a disagreement on the unchanged tree");
     let max = if ctx.quick() { 300_000 } else { 2 << 20 };
-    ctx.pbt("key_encrypt_vs_spec", ctx.n(8_000, 300_000), || (gen::plain_strategy(max), any::<u64>(), any::<u64>(), any::<u64>(), any::<u64>()).prop_flat_map(|(plain, s, r, e, p)| { let l = plain.len; (Just(plain), Just(s), Just(r), Just(e), Just(p), gen::rsched_for(l)) }).prop_map(|(plain, s, r, e, p, prs)| KeyDiff { plain, s, r, e, p, prs }), check_key);
+    ctx.pbt("key_encrypt_vs_spec", ctx.n(20_000, 300_000), || (gen::plain_strategy(max), any::<u64>(), any::<u64>(), any::<u64>(), any::<u64>()).prop_flat_map(|(plain, s, r, e, p)| { let l = plain.len; (Just(plain), Just(s), Just(r), Just(e), Just(p), gen::rsched_for(l)) }).prop_map(|(plain, s, r, e, p, prs)| KeyDiff { plain, s, r, e, p, prs }), check_key);
     ctx.pbt("pass_encrypt_vs_spec", ctx.n(200, 4_000), || (prop_oneof![5 => gen::small_plain(400), 1 => gen::plain_strategy(200_000)], gen::password_strategy(), any::<u64>()).prop_flat_map(|(plain, w, salt)| { let l = plain.len; (Just(plain), Just(w), Just(salt), gen::rsched_for(l)) }).prop_map(|(plain, w, salt, prs)| PassDiff { plain, w, salt, prs }), check_pass);
     let sf = |pass: bool, max: usize| (gen::plain_strategy(max), any::<u64>(), any::<u64>(), any::<u64>(), any::<u64>(), proptest::collection::vec(prop_oneof![1usize..300, Just(CS), Just(CS - 1), 1usize..=CS], 0..6), prop_oneof![Just(CS), 1usize..=CS, 1usize..50], gen::password_strategy(), gen::rsched_coarse())
         .prop_map(move |(plain, s, r, e, p, head, tail, w, crs)| { let tail = if plain.len / tail.max(1) > 400 { CS } else { tail }; SpecFile { plain, s, r, e, p, head, tail, pass: if pass { Some(w) } else { None }, crs } });
-    ctx.pbt("spec_files_key", ctx.n(8_000, 300_000), || sf(false, max), check_spec_file);
+    ctx.pbt("spec_files_key", ctx.n(20_000, 300_000), || sf(false, max), check_spec_file);
     ctx.pbt("spec_files_pass", ctx.n(150, 3_000), || sf(true, 70_000), check_spec_file);
     let specials: Vec<u64> = vec![0, 1, 2, 255, 256, 65535, 65536, (1 << 32) - 1, 1 << 32, (1 << 32) + 1, 1 << 40, 1 << 63, (1 << 63) + 1, u64::MAX - 1, u64::MAX - 2, 0x0102030405060708, 0xfffefdfcfbfaf9f8];
     let cases: Vec<NonceCase> = specials.iter().flat_map(|&n| (0..6usize).map(move |i| NonceCase { key: n ^ i as u64, counter: n, ad_len: [0, 1, 8, 12, 32, 40][i], msg_len: [0, 1, 16, 63, 64, 200][i] })).collect();
